@@ -500,6 +500,9 @@ class Interp:
         """base[idx] with idx a boolean mask in id representation."""
         if isinstance(base, PhiC):
             return PhiC(base.test, self._mask(base.a, base_t, idx, c), self._mask(base.b, base_t, idx, c))
+        if isinstance(idx, tuple) and len(idx) == 4 and idx[0] in ("ifexp", "phi"):
+            # a mask chosen by a conditional selects what the chosen mask selects: X[m1 if t else m2] is X[m1] if t else X[m2]
+            return PhiC(idx[1], self._mask(base, base_t, idx[2], c), self._mask(base, base_t, idx[3], c))
         if not isinstance(base, Coll):
             self.unrecognised.append(f"mask on {show_coll(base)}")
             return Coll(ALL_CLASSES, restricted=True, why_restricted="mask on complement", unrecognised=True)
